@@ -13,7 +13,7 @@ func init() {
 	register("C04",
 		"Structural necessary conditions of C04 decided from /repo's SSA: (modes) the tree-entry loop classifies an entry by (mode & 0170000) against git's constants 040000 tree, 0160000 gitlink, 0120000 symlink, everything else a blob; (arms) on every path through one loop iteration exactly one kind counter is bumped (dirs via the subtree's expansion, files, links, submodules), the path-depth and path-length maxima are each updated exactly once, a blob's size is added exactly where its file is counted, each update sits in the arm of its own mode constant, and the gitlink arm performs no object lookup — deferred listeners are credited to the branch that registers them; (combine) the seven per-tree quantities receive exactly the update edges of the recursive expansion (ADD per occurrence, MAX for depth/length, the tree itself counted at record creation) and nothing else; (maxima) each of the seven 'biggest checkout' metrics is the MAX of its own per-tree quantity, executed unconditionally once per finalised tree. Not decided: the numeric equality on concrete tree DAGs.",
 		[]string{"field-based heap model", "git's object-mode constants", "go/ssa models the source faithfully"},
-		ruleC04Modes, ruleC04Arms, ruleC04Combine, ruleC04Maxima)
+		ruleC04Modes, ruleC04Arms, ruleC04Combine, ruleC04Maxima, ruleC04FinalOnly, ruleC04Descend)
 }
 
 const (
@@ -263,4 +263,123 @@ func ruleC04Maxima(c *Ctx) {
 		}
 	}
 	c.floor("C04.maxima", 7, "per-dimension checkout maxima")
+}
+
+// ruleC04Descend: the place that combines a finished subtree into its
+// parent performs exactly the seven combine updates, and the path-length
+// one distinguishes "subtree has a path" (name + '/' + longest path below)
+// from "subtree is empty" (name only).
+func ruleC04Descend(c *Ctx) {
+	e := c.effects()
+	var site *effEdge
+	for _, ed := range e.Edges {
+		if ed.Key() == eDirs {
+			if site != nil && site.Fn != ed.Fn {
+				c.violate("C04.descend", "single-place", posOf(ed.Site), fnName(ed.Fn), "subtree expansions are combined in more than one function")
+				return
+			}
+			site = ed
+		}
+	}
+	if site == nil {
+		return // reported by C04.effects
+	}
+	f := site.Fn
+	name := fnName(f)
+	want := map[string]bool{
+		"T:max_path_depth <-MAX {ADD(T:max_path_depth,const:1)}":                              true,
+		"T:max_path_length <-MAX {ADD(T:max_path_length,const:1,len(F:git.TreeEntry.Name))}": true,
+		"T:max_path_length <-MAX {len(F:git.TreeEntry.Name)}":                                true,
+		eDirs: true,
+		"T:expanded_blob_count <-ADD {T:expanded_blob_count}":           true,
+		"T:expanded_blob_size <-ADD {T:expanded_blob_size}":             true,
+		"T:expanded_link_count <-ADD {T:expanded_link_count}":           true,
+		"T:expanded_submodule_count <-ADD {T:expanded_submodule_count}": true,
+	}
+	got := map[string]*effEdge{}
+	for _, ed := range e.Edges {
+		if ed.Fn == f && ed.Counter {
+			got[ed.Key()] = ed
+		}
+	}
+	ok := true
+	for k := range want {
+		if got[k] == nil {
+			ok = false
+			c.violate("C04.descend", "missing:"+k, f.Pos(), name, "combining a subtree does not perform `"+k+"`")
+		}
+	}
+	for k, ed := range got {
+		if !want[k] {
+			ok = false
+			c.violate("C04.descend", "foreign:"+k, posOf(ed.Site), name, "combining a subtree performs the unexpected update `"+k+"`")
+		}
+	}
+	if !ok {
+		return
+	}
+	// each of the five sums and the depth exactly once per call; the two length updates are alternatives
+	for k := range want {
+		k := k
+		ec := c.effectCounter(func(ed *effEdge) bool { return ed.Key() == k && ed.Fn == f }, false)
+		r := ec.function(f)
+		if strings.HasPrefix(k, "T:max_path_length") {
+			continue
+		}
+		if r.Min != 1 || r.Max != 1 {
+			c.violate("C04.descend", "once:"+k, f.Pos(), name, fmt.Sprintf("`%s` executes %s times per combined subtree (must be exactly once)", k, rangeStr(r)))
+			ok = false
+		}
+	}
+	ecLen := c.effectCounter(func(ed *effEdge) bool { return ed.Target == "T:max_path_length" && ed.Fn == f }, false)
+	if r := ecLen.function(f); r.Min != 1 || r.Max != 1 {
+		c.violate("C04.descend", "once:path-length", f.Pos(), name, fmt.Sprintf("the path-length maximum is updated %s times per combined subtree", rangeStr(r)))
+		ok = false
+	}
+	// guards of the two alternatives
+	childHasPath := func(b *ssa.BasicBlock) (known, truth bool) {
+		for _, fct := range factsAt(b) {
+			cond, t := normCond(fct.Cond, fct.Truth)
+			cmp, isCmp2 := cond.(*ssa.BinOp)
+			if !isCmp2 {
+				continue
+			}
+			n, isZero := constUint(cmp.Y)
+			if !isZero || n != 0 {
+				continue
+			}
+			var tag string
+			switch x := cmp.X.(type) {
+			case *ssa.UnOp:
+				if fa, isFA := x.X.(*ssa.FieldAddr); isFA {
+					tag = nodeOfField(fieldOfAddr(fa))
+				}
+			case *ssa.Field:
+				tag = nodeOfField(fieldOfVal(x))
+			}
+			if tag != "T:max_path_length" {
+				continue
+			}
+			switch cmp.Op {
+			case token.GTR, token.NEQ:
+				return true, t
+			case token.EQL, token.LEQ:
+				return true, !t
+			}
+		}
+		return false, false
+	}
+	long := got["T:max_path_length <-MAX {ADD(T:max_path_length,const:1,len(F:git.TreeEntry.Name))}"]
+	short := got["T:max_path_length <-MAX {len(F:git.TreeEntry.Name)}"]
+	kl, tl := childHasPath(long.Site.Block())
+	ks, ts := childHasPath(short.Site.Block())
+	if kl && tl && ks && !ts {
+		c.hold("C04.descend", "path-length-guard", posOf(long.Site), "name+1+child length iff the child has a non-empty path; the bare name length otherwise")
+	} else {
+		ok = false
+		c.violate("C04.descend", "path-length-guard", posOf(long.Site), name, "the two path-length updates are not selected by `child's max path length > 0`: a path ending at an empty directory would be counted with a separator it does not have (or a real path without one)")
+	}
+	if ok {
+		c.hold("C04.descend", "edges", f.Pos(), fmt.Sprintf("%s performs exactly the %d combine updates, once each", name, len(want)))
+	}
 }
